@@ -37,8 +37,6 @@ func New(numWorkers ...int) *Worker {
 	return w
 }
 
-const ln3 = 1.098612288668109691395245236922525704647490557822749451734694333 // https://oeis.org/A002391
-
 // Mine performs the PoW for data.
 // It returns a nonce that appended to data results in a PoW score of at least targetScore.
 // The computation can be canceled anytime using ctx.
@@ -66,8 +64,16 @@ func (w *Worker) Mine(ctx context.Context, data []byte, targetScore float64) (ui
 		}
 	}()
 
-	// compute the minimum numbers of trailing zeros required to get a PoW score ≥ targetScore
-	targetZeros := uint(math.Ceil(math.Log(float64(len(data)+nonceBytes)*targetScore) / ln3))
+	// compute the minimum numbers of trailing zeros required to get a PoW score ≥ targetScore;
+	// this uses the same expression as Score, so that rounding cannot make the two disagree,
+	// and it yields zero for every target that any nonce satisfies
+	targetZeros := uint(consts.HashTrinarySize + 1) // unattainable, unless a sufficient number is found
+	for z := 0; z <= consts.HashTrinarySize; z++ {
+		if math.Pow(consts.TrinaryRadix, float64(z))/float64(len(data)+nonceBytes) >= targetScore {
+			targetZeros = uint(z)
+			break
+		}
+	}
 
 	workerWidth := math.MaxUint64 / uint64(w.numWorkers)
 	for i := 0; i < w.numWorkers; i++ {
